@@ -204,6 +204,20 @@ func c13SeqInputs(rng *rand.Rand, cmds []hostileInput, n int) []hostileInput {
 	return out
 }
 
+// c13MultiEach: every command token of the SUT, in four minimal argument shapes, queued alone inside MULTI..EXEC
+// (deterministic: a command that cannot run under the transaction's locks wedges the database whatever its arguments).
+func c13MultiEach(names []string) []hostileInput {
+	var out []hostileInput
+	for _, n := range names {
+		base := strings.Split(n, "|")
+		for _, extra := range [][]string{{}, {"ks"}, {"ks", "1"}, {"0"}} {
+			cmd := append(append([]string{}, base...), extra...)
+			out = append(out, hostileInput{kind: "seq", cmds: [][]string{{"MULTI"}, cmd, {"EXEC"}}, label: "multi-each+" + strings.ToLower(n)})
+		}
+	}
+	return out
+}
+
 func c13RawInputs(rng *rand.Rand, n int) []hostileInput {
 	var out []hostileInput
 	add := func(label string, b string) {
@@ -666,7 +680,7 @@ func stallSummary(dump string) string {
 }
 
 func checkC13(r *verdict.Run) {
-	r.Rule = "each hostile input (raw byte string, generated command, or MULTI..EXEC sequence) is sent on its own connection to a live emulator after a fixed key setup; " +
+	r.Rule = "each hostile input (raw byte string, generated command, random MULTI..EXEC sequence, and every command token of the SUT in four minimal argument shapes queued alone inside MULTI..EXEC) is sent on its own connection to a live emulator after a fixed key setup; " +
 		"monitors: process exit status, canary SET/GET on another connection (3 s watchdog), strict framing of replies, exactly one reply per well-formed command (sentinel ECHO). " +
 		"distinct = (input kind, command or mutation label, outcome class)"
 	// discover the command list from the SUT
@@ -679,6 +693,7 @@ func checkC13(r *verdict.Run) {
 	cmds := c13CmdInputs(rng, names, tierPick(r, 2, 40))
 	inputs = append(inputs, cmds...)
 	inputs = append(inputs, c13SeqInputs(rng, append(append([]hostileInput{}, tmpl...), cmds...), tierPick(r, 500, 20000))...)
+	inputs = append(inputs, c13MultiEach(names)...)
 	rng.Shuffle(len(inputs), func(i, j int) { inputs[i], inputs[j] = inputs[j], inputs[i] })
 	r.Set("inputs_raw_cmd_seq", fmt.Sprintf("%d inputs over %d command tokens", len(inputs), len(names)))
 	for i := 0; i < 4 && i < len(inputs); i++ {
